@@ -11,6 +11,12 @@ import (
 )
 
 func (e *Engine) loopSpecFor(fr *Frame, li *loopInfo) *LoopSpec {
+	// the function under verification may supply invariants for the loops of callees inlined into it
+	if e.cur != nil && e.cur.Contract != nil && e.cur.Contract.InlinedLoops != nil && fr.Fn != nil && fr.Fn != e.cur.Fn {
+		if ls, ok := e.cur.Contract.InlinedLoops[fmt.Sprintf("%s.%d", FuncKey(fr.Fn), li.Ord)]; ok {
+			return ls
+		}
+	}
 	if fr.Contract == nil {
 		return nil
 	}
@@ -232,7 +238,7 @@ func (e *Engine) havocForLoop(st *State, W *writeSet, ctx *LoopCtx, li *loopInfo
 			// fresh part: values at refs >= entry alloc are arbitrary
 			nh := tb.Fresh("lh_"+cl, s)
 			bv := tb.BoundVar("r", SInt)
-			e.assumeQuiet(st, tb.Forall([]*Term{bv}, tb.Implies(tb.Lt(bv, ctx.EntryAlloc), tb.Eq(tb.Select(nh, bv), tb.Select(st.Heap[cl], bv))), []*Term{tb.Select(nh, bv)}))
+			e.assumeQuiet(st, tb.Forall([]*Term{bv}, tb.Implies(tb.Lt(bv, e.loopFreshBound(ctx)), tb.Eq(tb.Select(nh, bv), tb.Select(st.Heap[cl], bv))), []*Term{tb.Select(nh, bv)}))
 			st.Heap[cl] = nh
 			continue
 		}
@@ -243,6 +249,12 @@ func (e *Engine) havocForLoop(st *State, W *writeSet, ctx *LoopCtx, li *loopInfo
 	e.pendingWF = nil
 	for _, cl := range sortedKeys(all) {
 		k, ok := e.classKinds[cl]
+		if ok && k == LKInt {
+			if ax := e.rangeAxiom(cl, st.Heap[cl]); ax != nil {
+				e.assumeQuiet(st, ax)
+			}
+			continue
+		}
 		if !ok || (k != LKRef && k != LKSlArr) {
 			continue
 		}
@@ -295,6 +307,27 @@ func (e *Engine) havocForLoop(st *State, W *writeSet, ctx *LoopCtx, li *loopInfo
 	e.pendingWF = nil
 }
 
+// isInlinedLoopOverride: the loop's spec comes from the contract of the function under verification ("loop callee.N").
+func (e *Engine) isInlinedLoopOverride(fr *Frame, ctx *LoopCtx) bool {
+	if e.cur == nil || e.cur.Contract == nil || e.cur.Contract.InlinedLoops == nil || ctx.Spec == nil {
+		return false
+	}
+	for _, ls := range e.cur.Contract.InlinedLoops {
+		if ls == ctx.Spec {
+			return true
+		}
+	}
+	return false
+}
+
+// loopFreshBound: references at or beyond it count as fresh for the loop's frame ("modifies fresh": since function entry).
+func (e *Engine) loopFreshBound(ctx *LoopCtx) *Term {
+	if ctx.Spec != nil && ctx.Spec.ModFresh && e.entryAlloc != nil {
+		return e.entryAlloc
+	}
+	return ctx.EntryAlloc
+}
+
 func (e *Engine) loopSpecCtx(st *State, ctx *LoopCtx) *specCtx {
 	fr := st.top()
 	// parameters by name (entry values) from the verified/inlined function's frame
@@ -315,7 +348,12 @@ func (e *Engine) loopSpecCtx(st *State, ctx *LoopCtx) *specCtx {
 	}
 	oldHeap := ctx.EntryHeap
 	oldAlloc := ctx.EntryAlloc
-	if e.cur != nil && len(st.Frames) == 1 {
+	if fr.EntryAlloc != nil {
+		// old(...) and fresh(...) in a loop invariant refer to the entry of the function that contains the loop
+		oldHeap = fr.EntryHeap
+		oldAlloc = fr.EntryAlloc
+	}
+	if e.cur != nil && (len(st.Frames) == 1 || e.isInlinedLoopOverride(fr, ctx)) {
 		oldHeap = e.entryHeap
 		oldAlloc = e.entryAlloc
 	}
@@ -487,7 +525,7 @@ func (e *Engine) loopBackEdge(st *State, li *loopInfo, ctx *LoopCtx, b *ssa.Basi
 			locs = append(locs, e.evalLocsClause(sc, m)...)
 		}
 		for _, cl := range ctx.Written {
-			g := e.frameGoal(e.heapIn(ctx.EntryHeap, cl), e.H(st, cl, e.classSorts[cl]), cl, locs, ctx.EntryAlloc)
+			g := e.frameGoal(e.heapIn(ctx.EntryHeap, cl), e.H(st, cl, e.classSorts[cl]), cl, locs, e.loopFreshBound(ctx))
 			e.oblige(st, "loopframe", fmt.Sprintf("loop%d.%s", li.Ord, cl), li.Pos, g, "loop modifies only the declared locations of "+cl)
 		}
 	}
